@@ -258,7 +258,27 @@ fn text(r: &mut StdRng, out: &mut Out, n: usize) {
         let sup = match catch_unwind(move || nmc.superdomain(k).map(|s| s.wire_repr().to_vec())) {
             Ok(Some(s)) if !pre_panic => json!({"out": "ok", "name": s}), Ok(None) if !pre_panic => json!({"out": "none"}), _ => json!({"out": "panic"}) };
         let labels: Vec<Vec<u8>> = nm.labels().map(|l| l.octets().to_vec()).collect();
-        out.emit(json!({"ev": "Name", "a": w, "text": text.as_bytes().to_vec(), "back": back, "b": w2, "eq": *nm == *nm2, "cmp": ord, "cmprev": ord_rev,
+        // LabelBuf (first labels of a and b; the empty label for the root) and LowercaseName: the other public types
+        let fl = |n: &Name| -> Vec<u8> { n.labels().next().map(|l| l.octets().to_vec()).unwrap_or_default() };
+        let (la, lb) = (fl(&nm), fl(&nm2));
+        let lbuf = match catch_unwind(move || {
+            use quandary::name::LabelBuf;
+            let (x, y) = (LabelBuf::try_from(&la[..]).unwrap(), LabelBuf::try_from(&lb[..]).unwrap());
+            let hb = |l: &LabelBuf| { let mut s = DefaultHasher::new(); l.hash(&mut s); s.finish() };
+            let long = [b'x'; 64];
+            json!({"eq": x == y, "cmp": match x.cmp(&y) { std::cmp::Ordering::Less => -1, std::cmp::Ordering::Equal => 0, _ => 1 }, "heq": hb(&x) == hb(&y),
+                   "text": x.to_string().as_bytes().to_vec(), "len": x.len(), "too_long": LabelBuf::try_from(&long[..]).is_err(), "max_ok": LabelBuf::try_from(&long[..63]).is_ok()})
+        }) { Ok(j) => j, Err(_) => json!({"eq": false, "cmp": 9, "heq": false, "text": [], "len": 999, "too_long": false, "max_ok": false}) };
+        let nmc2 = nm.clone();
+        let t2 = text.clone();
+        let lc = match catch_unwind(move || {
+            use quandary::name::LowercaseName;
+            let l: Box<LowercaseName> = nmc2.into();
+            let parsed = match t2.parse::<Box<LowercaseName>>() { Ok(p) => json!({"out": "ok", "name": p.wire_repr().to_vec()}), Err(_) => json!({"out": "err"}) };
+            let back: Box<Name> = l.clone().into();
+            json!({"wire": l.wire_repr().to_vec(), "text": l.to_string().as_bytes().to_vec(), "parsed": parsed, "back": back.wire_repr().to_vec()})
+        }) { Ok(j) => j, Err(_) => json!({"wire": [], "text": [], "parsed": {"out": "panic"}, "back": []}) };
+        out.emit(json!({"ev": "Name", "lbuf": lbuf, "lc": lc, "a": w, "text": text.as_bytes().to_vec(), "back": back, "b": w2, "eq": *nm == *nm2, "cmp": ord, "cmprev": ord_rev,
             "heq": h(&nm) == h(&nm2), "sub": nm.eq_or_subdomain_of(&nm2), "lower": low.wire_repr().to_vec(), "nlabels": nm.len(),
             "k": k, "sup": sup, "labels": labels, "wild": nm.is_wildcard(), "root": nm.is_root()}));
         // random text
